@@ -9,19 +9,21 @@ PROP = dict(
     design='DESIGN.md §4 C01, §3.2 TermGeo',
     technique='Lean 4 proof: every Rust panic the TermGeo model can exhibit (clamp min>max, negative index as usize, i32 '
               'overflow of cursor/row arithmetic) is excluded for every stream by the state invariant (induction over the '
-              'stream and over macro nesting); model tied to the ANSI parser by a per-character differential correspondence; '
+              'stream and over macro nesting); model tied to all ten parsers by a per-character differential correspondence (geometry digest after every character); '
               'oracle (panic / abort / hang per character, crash-isolated workers) on the real code for all emulations',
     rule='cases: seeded grammar-based streams (complete CSI final x intermediate table, 0..6 parameters incl. 2^16, 10^6, '
          '2^31-1 and 11-digit values, DCS macros/hex macros/sixel/font payloads, OSC palette/hyperlinks, APS, ANSI music, '
          'emulation-specific lead-ins, raw bytes) for all 13 emulation configurations, screens 1..132 x 1..60; '
-         'evaluations = characters fed; distinct_nontrivial = distinct streams; ANSI streams are additionally compared '
-         'with the model (one line per stream)',
-    modelled='ANSI parser control flow (ESC/CSI/DCS/OSC/APS/music framing, macro definition incl. hex macros, macro '
+         'evaluations = characters fed; distinct_nontrivial = distinct streams; every stream is additionally compared '
+         'with the model; exhaustive streams of length <= 3 (quick) over each byte-oriented emulation\'s control alphabet',
+    modelled='all ten emulations: Avatar / PCBoard / Ctrl-A / Renegade wrappers in front of the ANSI parser (Model/TermWrap, '
+             'no_panic_wrapped_partial), ASCII / ATASCII / PETSCII / Viewdata / Mode 7 (Model/TermOther, no_panic_bytes_partial); '
+             'ANSI parser control flow (ESC/CSI/DCS/OSC/APS/music framing, macro definition incl. hex macros, macro '
              'invocation with depth and expansion limits), caret primitives, limit_caret_pos, Buffer::print_char, margins, '
              'tab stops on a terminal buffer',
     not_modelled='what external actions do (OSC palette regex + hyperlink list, custom font load, sixel decode thread, '
-                 'music note list, SGR attribute bits); RIP/IGS (C20); PETSCII, ATASCII, '
-                 'Viewdata, Mode 7, ASCII: oracle only (exploration-supported, no theorem)',
+                 'music note list, SGR attribute bits: crash-isolated oracle only); RIP/IGS (C20); cell contents and '
+                 'colours of every emulation (the models carry geometry and parser state only)',
     assumptions=['the model raises `overflow` conservatively when cursor/row arithmetic could leave i32; '
                  'theorem overflow_guard_needs_2_30_rows shows this needs a scrollback above 2^30 rows'],
 )
